@@ -90,6 +90,14 @@ impl<'tcx> M<'tcx> {
                 }
             }
         }
+        // ---- the roots crate's unwind point: returns, or panics and unwinds (one decision per call; the cleanup edges of every frame below are followed)
+        if n == "maybe_unwind" && vals.is_empty() {
+            if self.decide(2) == 1 {
+                self.events.push(Event::Note("unwind".into()));
+                return Err(Stop::Unwind);
+            }
+            return Ok(Some(V::unit()));
+        }
         // ---- derive(Debug) helpers on Formatter
         if n.contains("fmt::Formatter") && last.starts_with("debug_") && last.ends_with("_finish") {
             let f = vals[0].clone();
